@@ -96,6 +96,9 @@ def _case(draw):
             if s != p and ref_key != s:
                 items.append(f"{p}.xs.Select(lambda x: {p}.xs.Select(lambda {s}: ({s} + x, {ref})))")
                 used.add(ref_key)
+        elif k == 10 and draw(st.integers(0, 2)) == 0 and not any("W9" in it for it in items):
+            # the target of an assignment expression is a variable of the lambda, also when a module variable is spelled like it
+            items.append(f"((W9 := {p}.n) + W9)")
         elif k == 10:
             items.append(f"({ref}, {ref})")
             used.add(ref_key)
@@ -169,6 +172,7 @@ class F64(float):
     pass
 G1 = {v["G1"]}
 G2 = {v["G2"]}
+W9 = 41
 class A:
     c = {v["Ac"]}
     class B:
